@@ -66,6 +66,8 @@ def gen_cases(ctx, tier):
         for x in MAGS:
             for u in ("", rng.choice(ALLU[1:])):
                 cases.append({"fn": name, "args": [[num_text(x), u]]})
+    # witness of the open finding F39
+    cases.append({"fn": "clamp", "args": [["1", "%"], ["0.25", "fr"], ["40", "%"]]})
     n = 150 if tier == "quick" else 4000
     for _ in range(n):
         # div
@@ -242,9 +244,13 @@ def judge(c, io, r):
     if r is None:
         return {"corr": None, "clauses": [], "nontrivial": False, "tags": ["skipped"], "show": call_text(c)}
     corr, ok = r
+    # F39 (input-only class): clamp() whose arguments mix `%` and `fr`: both are "dimensionless" for
+    # UnitSet::is_compatible, so the unit check passes although no conversion exists between them
+    units = {a[1] for a in c["args"]}
+    k1 = "known_C29_K1_clamp_percent_fr" if (c["fn"] == "clamp" and {"%", "fr"} <= units) else None
     return {
         "corr": None if corr == 2 else corr == 1,
-        "clauses": [("value-units-guards", ok == 1, None), ("libm-value", libm_ok(c, io), None)],
+        "clauses": [("value-units-guards", ok == 1, k1), ("libm-value", libm_ok(c, io), None)],
         "nontrivial": any(a[1] != "" or "." in a[0] for a in c["args"]),
         "tags": [c["fn"]],
         "show": call_text(c) + " -> " + str(parse_impl(io[0])), "detail": call_text(c),
